@@ -71,6 +71,21 @@ pub fn gen_c02(out: &mut dyn Write, thorough: bool, seed: u64) {
         });
     }
     scale_c02(out, &mut r);
+    // a sentence that WAS predicted and whose labels were then overwritten (unknowns included) through boundaries_mut
+    {
+        use crate::model::{gen_model, gen_text, GenOpts};
+        let opts = GenOpts { windows: &[1, 2, 3], max_ngrams: 4, max_words: 2, max_word_len: 3 };
+        for _ in 0..(if thorough { 2000 } else { 150 }) {
+            let (m, alpha) = gen_model(&mut r, &opts);
+            let text = gen_text(&mut r, &m, &alpha, 10);
+            let n = text.chars().count();
+            if n < 2 {
+                continue;
+            }
+            let labels = rand_labels(&mut r, n - 1, &['N', 'W', 'U', 'U']);
+            writeln!(out, "H fct {}^00 Fraw:{},pred:0,setbs:{},obs:TBKGIW c02", m.to_text(), hexs(&text), labels).unwrap();
+        }
+    }
     // random: longer texts, with tags on some characters
     let count = if thorough { 30000 } else { 1500 };
     for _ in 0..count {
@@ -207,6 +222,28 @@ pub fn gen_c03(out: &mut dyn Write, thorough: bool, seed: u64) {
         writeln!(out, "S Ftok:{},obs:TBKGIW c03idem", hexs(t)).unwrap();
     }
     scale_formats(out, &mut r, false);
+    // cross-format: fully segmented sentences that come out of the PARTIAL-ANNOTATION parser, written as tokenized text
+    for _ in 0..(if thorough { 20000 } else { 1500 }) {
+        let n = r.range(1, 6) as usize;
+        let mut p = String::new();
+        for i in 0..n {
+            if i > 0 {
+                p.push(*r.pick(&['-', '|']));
+            }
+            p.push(*r.pick(&['a', 'あ', '漢', 'b']));
+            for _ in 0..r.below(3) {
+                p.push('/');
+                for _ in 0..r.range(0, 3) {
+                    let c = *r.pick(&['x', '名', '\\', '/', ' ', '-']);
+                    if matches!(c, '\\' | '/' | ' ' | '-' | '|') {
+                        p.push('\\');
+                    }
+                    p.push(c);
+                }
+            }
+        }
+        writeln!(out, "S Fpart:{},obs:TBKGIW c03rt", hexs(&p)).unwrap();
+    }
     // round trip: arbitrary fully segmented sentences with tags on tokens
     let count = if thorough { 200000 } else { 6000 };
     for _ in 0..count {
@@ -251,6 +288,20 @@ pub fn gen_c04(out: &mut dyn Write, thorough: bool, seed: u64) {
         writeln!(out, "S {ops},obs:TBKGP c04rt").unwrap();
     }
     scale_formats(out, &mut r, true);
+    // cross-format: sentences that come out of the TOKENIZED parser (where '-' and '|' are ordinary characters of a tag) are
+    // written as partial annotation and read back
+    for _ in 0..(if thorough { 20000 } else { 1500 }) {
+        let n_tok = r.range(1, 4);
+        let toks: Vec<String> = (0..n_tok)
+            .map(|_| {
+                let surf: String = (0..r.range(1, 3)).map(|_| *r.pick(&['a', 'あ', '漢', '-', '|'])).collect();
+                let surf: String = surf.chars().map(|c| c.to_string()).collect();
+                let tags: String = (0..r.below(3)).map(|_| format!("/{}", (0..r.range(0, 4)).map(|_| *r.pick(&['x', '名', '-', '|', '-', '|'])).collect::<String>())).collect();
+                format!("{surf}{tags}")
+            })
+            .collect();
+        writeln!(out, "S Ftok:{},obs:TBKGP c04rt", hexs(&toks.join(" "))).unwrap();
+    }
     let count = if thorough { 200000 } else { 6000 };
     for _ in 0..count {
         let text = rand_text(&mut r, 1, 10, 35);
@@ -348,6 +399,26 @@ pub fn gen_c05(out: &mut dyn Write, thorough: bool, seed: u64) {
         }
     }
     scale_c05(out);
+    // updates of a sentence that carries prediction results (scores, predictor link, tags): after the update nothing of them
+    // may be left, also when the new input equals the old one
+    {
+        use crate::model::{gen_model, gen_tag_models, gen_text_tags, GenOpts};
+        let opts = GenOpts { windows: &[1, 2, 3], max_ngrams: 4, max_words: 2, max_word_len: 3 };
+        for _ in 0..(if thorough { 1500 } else { 120 }) {
+            let (mut m, alpha) = gen_model(&mut r, &opts);
+            gen_tag_models(&mut r, &mut m, &alpha, 2);
+            let x = gen_text_tags(&mut r, &m, &alpha, 8);
+            let y = gen_text_tags(&mut r, &m, &alpha, 8);
+            let mt = m.to_text();
+            for (k, input) in [("raw", x.clone()), ("raw", y.clone()), ("tok", x.clone()), ("part", x.chars().map(|c| c.to_string()).collect::<Vec<_>>().join("-"))] {
+                if input.contains([' ', '/', '\\', '-', '|']) && k != "raw" {
+                    continue;
+                }
+                writeln!(out, "H fct {mt}^11 raw:{},pred:0,fill,{k}:{},obs c05", hexs(&x), hexs(&input)).unwrap();
+                writeln!(out, "H fct {mt}^11 raw:{},pred:0,{k}:{},fill,obs c05", hexs(&x), hexs(&input)).unwrap();
+            }
+        }
+    }
     writeln!(out, "S Fraw:-,obs c05\nS Ftok:-,obs c05\nS Fpart:-,obs c05\nS raw:-,obs c05\nS tok:-,obs c05\nS part:-,obs c05").unwrap();
     // exhaustive: all op sequences up to length 3 over a 9-op alphabet
     let alpha: Vec<String> = vec![
